@@ -45,6 +45,27 @@ def inlined_ivl(i):
     return '[%sms:%s]' % (lang.num(i[0] * 1000), lang.num(i[1] * 1000))
 
 
+def commented(case, texts):
+    """Comments around the sub-specification texts (documentation of a requirement): a trailing `// ...` line
+    comment, a leading or trailing `/* ... */` block comment.  Comments are not part of the specification."""
+    seed = case.get('comments')
+    if seed is None:
+        return texts
+    import random
+    r = random.Random(seed)
+    out = []
+    for t in texts:
+        k = r.random()
+        if k < 0.45:
+            t = t + ' // ' + r.choice(['x was high recently', 'requirement 4.2; see above', 'out = x'])
+        elif k < 0.6:
+            t = '/* ' + r.choice(['helper', 'a = b;']) + ' */ ' + t
+        elif k < 0.7:
+            t = t + ' /* trailing */'
+        out.append(t)
+    return out
+
+
 def modular_sd(case, names):
     """Specification dict of the modular form."""
     top = lang.from_jsonable(case['top'])
@@ -52,7 +73,7 @@ def modular_sd(case, names):
     consts = [(nm, 'float', lang.num(val)) for nm, val in case['consts']]
     if case.get('bound_consts'):
         bc = BoundConsts()
-        texts = ['%s = %s;' % (nm, lang.to_text(g, ivl_printer=bc.ivl)) for nm, g in defs]
+        texts = commented(case, ['%s = %s;' % (nm, lang.to_text(g, ivl_printer=bc.ivl)) for nm, g in defs])
         declared = list(names)
         if case.get('declare_names', True):
             declared += [nm for nm, _ in defs] + ['out']
@@ -64,7 +85,7 @@ def modular_sd(case, names):
             sd['subspecs'] = texts
             sd['text'] = 'out = %s;' % top_text
         return sd
-    texts = ['%s = %s;' % (nm, text_of(case, g)) for nm, g in defs]
+    texts = commented(case, ['%s = %s;' % (nm, text_of(case, g)) for nm, g in defs])
     declared = list(names)
     if case.get('declare_names', True):
         declared += [nm for nm, _ in defs] + ['out']
@@ -145,7 +166,7 @@ def gen_modular(rng, kind):
 
 class C09(Prop):
     id = 'C09'
-    rule_added = "20% with 1-2 named assertions that nothing refers to (after pastify() often with a longer look-ahead than the output). 15% with declared constants as interval bounds next to a suffixed begin; dense: 12% two named assertions whose intervals differ only in the unit. 15% under an interface-aware semantics on both forms; 6% C06's shared-term template."
+    rule_added = "15% with comments around the sub-specification texts (trailing // line comments, block comments). 20% with 1-2 named assertions that nothing refers to (after pastify() often with a longer look-ahead than the output). 15% with declared constants as interval bounds next to a suffixed begin; dense: 12% two named assertions whose intervals differ only in the unit. 15% under an interface-aware semantics on both forms; 6% C06's shared-term template."
     rule = ('a generated formula is decomposed at random into 1..4 named sub-specifications (nested, every occurrence '
             'of a chosen sub-formula replaced, so some are referenced 2-3 times; stateful sub-specs included) and up to '
             '2 declared constants; the modular spec (add_sub_spec or several assertions in one text) and the inlined '
@@ -198,6 +219,8 @@ class C09(Prop):
         case = {'kind': kind, 'top': lang.to_jsonable(top), 'defs': [(nm, lang.to_jsonable(g)) for nm, g in defs],
                 'consts': [(nm, val) for nm, val in consts], 'style': rng.choice(['add_sub_spec', 'one-text']),
                 'declare_names': rng.random() < 0.8}
+        if rng.random() < 0.15:
+            case['comments'] = rng.randrange(1 << 30)
         if rng.random() < 0.15 and any(g[1] is not None for g in lang.walk(f)):
             case['bound_consts'] = True
         elif rng.random() < 0.15 and kind in ('dt_off', 'dt_on', 'ct_off', 'ct_on'):
